@@ -50,6 +50,16 @@ func (r *RefRelay) Listen(ctx context.Context, in *signaling.ListenRequest) (sig
 	return nil, fmt.Errorf("refrelay: listen unsupported")
 }
 
+// Opened / RecvMsg build relay responses for scripted relays.
+func Opened(e uint64) *signaling.SessionResponse { return opened(e) }
+
+func RecvMsg(m *signaling.SessionMsg) *signaling.SessionResponse {
+	return &signaling.SessionResponse{Body: &signaling.SessionResponse_RecvMsg{RecvMsg: m}}
+}
+
+// Cur returns the client's current stream (nil before the first Session call).
+func (r *RefRelay) Cur() *sigfake.Duplex { return r.cur }
+
 func opened(e uint64) *signaling.SessionResponse {
 	return &signaling.SessionResponse{Body: &signaling.SessionResponse_Opened{Opened: e}}
 }
